@@ -421,7 +421,10 @@ def random_params(net, rng):
         # for a negative density, so that states with negative entries are not all "not a number")
         pv[f"lp.{l}.a"] = rng.uniform(1.2, 2.5) if rng.random() < 0.8 else 2.0
         pv[f"lp.{l}.turnrate"] = rng.uniform(0.2, 3.0)
-        pv[f"lp.{l}.alpha"] = rng.uniform(0.0, 0.2) if rng.random() < 0.8 else 0.0
+        # (non-compliance factor: usually a small positive number; zero and - drivers slower than the sign - slightly
+        # negative values are numbers like any other for the formulas)
+        r_ = rng.random()
+        pv[f"lp.{l}.alpha"] = rng.uniform(0.0, 0.2) if r_ < 0.7 else (0.0 if r_ < 0.85 else rng.uniform(-0.2, -0.02))
     # turn rates: sometimes all equal (the default 1.0, or a common value), sometimes one leaving link of a
     # node closed (turn rate exactly 0) - legal values a rule may mishandle
     nodes_, edges_ = net.graph()
@@ -441,10 +444,11 @@ def random_params(net, rng):
         pv[f"C.{o}"] = rng.uniform(1500, 2500)
     pv["g.T"] = 10 / 3600
     pv["g.tau"] = rng.uniform(15, 25) / 3600
-    pv["g.eta"] = rng.uniform(30, 70)
+    # (an anticipation, merging or lane-drop constant of exactly zero switches that term off: a legal number)
+    pv["g.eta"] = rng.uniform(30, 70) if rng.random() < 0.92 else 0.0
     pv["g.kappa"] = rng.uniform(20, 50)
-    pv["g.delta"] = rng.uniform(0.005, 0.02)
-    pv["g.phi"] = rng.uniform(0.5, 3.0)
+    pv["g.delta"] = rng.uniform(0.005, 0.02) if rng.random() < 0.92 else 0.0
+    pv["g.phi"] = rng.uniform(0.5, 3.0) if rng.random() < 0.92 else 0.0
     return pv
 
 
@@ -466,7 +470,9 @@ def random_state(net, pv, rng, mode="interior"):
             sv[f"v.{l}.{i}"] = pick(1.0, 1.2 * vf, [0.0, vf, 1e-3, 0.04 * vf])
         if v["vsl"] is not None:
             for k in range(len(v["vsl"])):
-                sv[f"vc.{l}.{k}"] = pick(20.0, 150.0, [1e6, math.inf, 20.0])
+                # (also: a sign showing exactly the free-flow speed, or slightly more - it still binds when the
+                # non-compliance factor is negative)
+                sv[f"vc.{l}.{k}"] = pick(20.0, 150.0, [1e6, math.inf, 20.0, vf, 1.03 * vf])
     for o, k in net.origins.items():
         sv[f"w.{o}"] = pick(0.0, 200.0, [0.0, 1000.0])
         sv[f"d.{o}"] = pick(0.0, 3000.0, [0.0, 6000.0])
